@@ -175,6 +175,12 @@ class MiniEval:
             left = self._ev(e.left, env)
             for op, c in zip(e.ops, e.comparators):
                 right = self._ev(c, env)
+                if isinstance(op, (ast.In, ast.NotIn)) and isinstance(right, (list, tuple, str)):
+                    hit = left in right
+                    if hit != isinstance(op, ast.In):
+                        return False
+                    left = right
+                    continue
                 t = {ast.Lt: left < right if _cmp(left, right) else None, ast.LtE: left <= right if _cmp(left, right) else None,
                      ast.Gt: left > right if _cmp(left, right) else None, ast.GtE: left >= right if _cmp(left, right) else None,
                      ast.Eq: left == right, ast.NotEq: left != right}.get(type(op), "x")
